@@ -4,7 +4,7 @@ import re
 
 from .. import cfg, tables
 from ..facts import REPO
-from ..lib import calls, cname, short
+from ..lib import closure_sites, calls, cname, short
 from ..sym import Sym
 
 AST = "internal::expr::Ast"
@@ -411,7 +411,7 @@ ARITH = {"Add", "Sub", "Mul", "Div", "Rem", "BitAnd", "BitOr", "BitXor", "Shl", 
          "MulWithOverflow", "Neg", "Not"}
 
 
-def arm_ops(prog, f, S, blks, value_locals_only=True):
+def arm_ops(prog, f, S, blks, value_locals_only=True, _depth=0):
     """operations performed on i32 / Value operands inside an arm region"""
     out = set()
     for b in blks:
@@ -433,7 +433,12 @@ def arm_ops(prog, f, S, blks, value_locals_only=True):
             n = t.get("callee") or ""
             m = re.search(r"(PartialEq::(?:eq|ne)|PartialOrd::(?:lt|le|gt|ge))$", n)
             if m:
-                out.add("call:" + m.group(1))
+                opn = m.group(1)
+                # `b < a` is `a > b`: name the comparison by the order of the function's operands (p2 before p3)
+                av = [S.val(a) for a in t["args"][:2]]
+                if len(av) == 2 and re.search(r"\bp3\b", av[0]) and re.search(r"\bp2\b", av[1]) and not re.search(r"\bp2\b", av[0]):
+                    opn = {"PartialOrd::lt": "PartialOrd::gt", "PartialOrd::gt": "PartialOrd::lt", "PartialOrd::le": "PartialOrd::ge", "PartialOrd::ge": "PartialOrd::le"}.get(opn, opn)
+                out.add("call:" + opn)
             m = re.search(r"<impl i32>::((?:wrapping|checked|overflowing|saturating)_\w+)$", n)
             if m:
                 out.add("call:" + m.group(1))
@@ -441,6 +446,21 @@ def arm_ops(prog, f, S, blks, value_locals_only=True):
                 out.add("call:to_bool")
             if "as std::ops::Add<&str>>::add" in (t.get("resolved") or ""):
                 out.add("call:string_add")
+            # an integer method handed over as a function value: int_arith(a, b, i32::wrapping_sub)
+            for a in t["args"]:
+                m = re.search(r"<impl i32>::((?:wrapping|checked|overflowing|saturating)_\w+)$", a.get("fn") or "") if a.get("k") == "const" else None
+                if m:
+                    out.add("call:" + m.group(1))
+        for s in blk["stmts"]:
+            for a in s["rhs"].get("ops", []):
+                m = re.search(r"<impl i32>::((?:wrapping|checked|overflowing|saturating)_\w+)$", a.get("fn") or "") if a.get("k") == "const" else None
+                if m:
+                    out.add("call:" + m.group(1))
+    # operations inside closures built in the region (an operator handed to a shared helper: int_arith(a, b, |x, y| x.wrapping_sub(y)))
+    if _depth == 0:
+        for b, c in closure_sites(prog, f):
+            if b in blks:
+                out |= arm_ops(prog, c, Sym(prog, c), {bl["id"] for bl in c.blocks if not bl["cleanup"]}, value_locals_only, _depth=1)
     return out
 
 
@@ -589,12 +609,24 @@ def op_typed(ctx, rule="OP-TYPED"):
     vs = tables.enum_variants(prog, "msi", BINOP)
     arith = {d for d, n in vs.items() if n in ("Add", "Sub", "Mul", "Div", "BitAnd", "BitOr", "BitXor", "Shl", "Shr")}
     n = 0
+    # locals whose value is moved into the return place (the return place of an inlined helper, a temporary)
+    ret = {0}
+    grew = True
+    while grew:
+        grew = False
+        for bl in f.blocks:
+            for s in bl["stmts"]:
+                if s["lhs"]["l"] in ret and not s["lhs"]["p"] and s["rhs"]["rv"] == "use":
+                    o = s["rhs"]["ops"][0]
+                    if o.get("pl") and not o["pl"]["p"] and o["pl"]["l"] not in ret:
+                        ret.add(o["pl"]["l"])
+                        grew = True
     for bl in f.blocks:
         if bl["cleanup"]:
             continue
         for s in bl["stmts"]:
             r = s["rhs"]
-            if s["lhs"]["l"] == 0 and r["rv"] == "agg" and (r.get("adt") or "").endswith("value::Value") and r.get("variant") in ("Int", "Str"):
+            if s["lhs"]["l"] in ret and not s["lhs"]["p"] and r["rv"] == "agg" and (r.get("adt") or "").endswith("value::Value") and r.get("variant") in ("Int", "Str"):
                 facts = {e: tr for (e, tr, g) in S.bool_facts_at(bl["id"])}
                 arm = facts.get("discr(*p1)")
                 if not arm or arm[1] not in arith:
